@@ -1,5 +1,7 @@
 #!/bin/sh
-# run the commands given on stdin one after the other (each may use all cores); log to /var/tmp/runs/queue.log
+# run the commands given on stdin one after the other (each may use all cores); several invocations serialise on a lock; log: /var/tmp/runs/queue.log
+exec 9>/var/tmp/runs/queue.lock
+flock 9
 while IFS= read -r cmd; do
   [ -z "$cmd" ] && continue
   echo "=== $(date +%H:%M:%S) $cmd" >> /var/tmp/runs/queue.log
